@@ -150,9 +150,44 @@ class P(explore.Problem):
             return k
         return (k, tuple(sorted((a, W.tag(v)) for a, v in st['assign'].items())))
 
+    def stale_stored_via_empty(self, hist, op, obs):
+        """defect model of KF-C01-stored-empty-text: every wrong element is a strict descendant of a formula cell
+        whose stored result is the empty string (read back as 'no value') and shows exactly its stored value"""
+        if not self.origin.startswith('xlsx') or op[0] != 'ev' or obs[0] != 'ok':
+            return False
+        init = W.scratch_values(self.spec)
+        deps = W.spec_deps(self.spec)
+        empties = [c for c in W.formula_cells(self.spec) if init.get(c, ('x',))[0] == 'ok' and init[c][1] in ('', None)]
+        below = set()
+        for e in empties:
+            below |= W.descendants(deps, e) - {e}
+        if not below:
+            return False
+        assign = {}
+        for o in list(hist):
+            if o[0] == 'set':
+                assign[o[1]] = o[2]
+        exp = self.ref(assign)[op[1]]
+        if exp[0] != 'ok':
+            return False
+        sh, ref = W.split_addr(op[1])
+        if ':' in ref and W.CELL_RE.match(ref.split(':')[0]) and W.CELL_RE.match(ref.split(':')[1]):
+            members = [f'{sh}!{c}' for row in W.range_cells(ref) for c in row]
+            flat = lambda v: [x for r in v for x in (r if isinstance(r, tuple) else (r,))] if isinstance(v, tuple) else [v]   # noqa: E731
+            o, e = flat(obs[1]), flat(exp[1])
+            if len(o) != len(members) or len(e) != len(members):
+                return False
+        elif ':' in ref:
+            return False
+        else:
+            members, o, e = [op[1]], [obs[1]], [exp[1]]
+        wrong = [(m, x) for m, x, y in zip(members, o, e) if not W.veq(x, y)]
+        return bool(wrong) and all(m in below and init.get(m, ('x',))[0] == 'ok' and W.veq(x, init[m][1]) for m, x in wrong)
+
     def case(self, hist, op, obs):
         return dict(kind='history', wb=self.fam['name'], origin=self.origin, fam=_strip(self.fam),
-                    hist=[list(o) for o in hist], op=list(op), observed=jsonable(obs))
+                    hist=[list(o) for o in hist], op=list(op), observed=jsonable(obs),
+                    stale_stored_via_empty=self.stale_stored_via_empty(hist, op, obs))
 
 
 def _strip(fam):
